@@ -322,14 +322,14 @@ func c03(args []string) int {
 		return 2
 	}
 	type scReport struct {
-		Name        string `json:"name"`
-		Ops         string `json:"ops"`
-		Config      string `json:"config"`
-		Counted     int    `json:"counted_syscalls"`
-		Determin    bool   `json:"trace_deterministic"`
-		KillPoints  int    `json:"kill_points_run"`
-		Exhaustive  bool   `json:"exhaustive"`
-		SyscallMix  string `json:"syscall_mix"`
+		Name       string `json:"name"`
+		Ops        string `json:"ops"`
+		Config     string `json:"config"`
+		Counted    int    `json:"counted_syscalls"`
+		Determin   bool   `json:"trace_deterministic"`
+		KillPoints int    `json:"kill_points_run"`
+		Exhaustive bool   `json:"exhaustive"`
+		SyscallMix string `json:"syscall_mix"`
 	}
 	var reports []scReport
 	var evals, killed int64
@@ -456,7 +456,7 @@ func c03(args []string) int {
 						}
 						rep.Report(&ev.Violation{Kind: pr.Kind,
 							Signature: fmt.Sprintf("%s|%s|%s|before=%s|during=%s|%s", pr.Kind, sc.Name, cfgClass(sc.Cfg), strings.Join(call[min(1, len(call)):min(3, len(call))], " "), kr.InFlight, j.v),
-							Detail: map[string]any{"scenario": sc, "kill_before_call": j.k, "call": kr.Before, "in_flight_op": kr.InFlight, "variant": j.v, "problem": pr.String()}})
+							Detail:    map[string]any{"scenario": sc, "kill_before_call": j.k, "call": kr.Before, "in_flight_op": kr.InFlight, "variant": j.v, "problem": pr.String()}})
 					}
 				}
 			}()
@@ -502,10 +502,10 @@ func c03(args []string) int {
 		},
 		Coverage: map[string]any{
 			"evaluations": evals, "distinct_nontrivial": len(outcomes),
-			"rule":        "for each scenario the worker's mutating syscalls are recorded twice (determinism gate) and every one of them is a kill point; after the kill: all final-named LTX files verify, restore output complete or absent, last acknowledged state restorable, then (variants: nothing / application writes+TRUNCATE checkpoint) a fresh worker must SyncAndWait successfully and satisfy the page-exact restore oracle; distinct = distinct (syscall, operation in flight) classes",
-			"samples":     samples, "exhaustive": exhaustive, "scenarios": reports, "kills_effective": killed,
+			"rule":    "for each scenario the worker's mutating syscalls are recorded twice (determinism gate) and every one of them is a kill point; after the kill: all final-named LTX files verify, restore output complete or absent, last acknowledged state restorable, then (variants: nothing / application writes+TRUNCATE checkpoint) a fresh worker must SyncAndWait successfully and satisfy the page-exact restore oracle; distinct = distinct (syscall, operation in flight) classes",
+			"samples": samples, "exhaustive": exhaustive, "scenarios": reports, "kills_effective": killed,
 			"kill_classes": top,
-			"variants":    "idle at every kill point; app-continues at every kill point (thorough) / every other kill point (quick)",
+			"variants":     "idle at every kill point; app-continues at every kill point (thorough) / every other kill point (quick)",
 		}}
 	if err := ev.Write(e); err != nil {
 		fmt.Fprintln(os.Stderr, err)
